@@ -143,8 +143,22 @@ class C10(Prop):
         import cvxpy as cp
         p = self.prep(case, out); sys = p["sys"]
         X = np.array(out["X"]); s = np.array(out["scales"]); B = np.array(case["B"])
-        if np.any(X < sys["lb"] - 1e-6) or np.any(X > sys["ub"] + 1e-6) or np.any(s <= 0):
-            return {"what": "intensities outside the bounds or non-positive scales %s" % s.tolist(), "class": "bounds"}
+        if np.any(X < sys["lb"] - 1e-6) or np.any(X > sys["ub"] + 1e-6) or np.any(s < -1e-9):
+            return {"what": "intensities outside the bounds or negative scales %s" % s.tolist(), "class": "bounds"}
+        if np.any(s <= 1e-9):
+            # a scale that is not positive: is it forced (every optimal pair has it at zero) or did the fit lose a positive optimum?
+            N = p["N"]; k = int(np.argmin(s)); forced = False
+            try:
+                z = cp.Variable(N + 2); fin = np.isfinite(p["zub"])
+                obj = cp.sum_squares(cp.multiply(p["sw"], z[N:] - 1)) if case["objective"] != "max" else -(p["sw"] @ z[N:])
+                pr = cp.Problem(cp.Minimize(obj), [p["G"] @ z <= p["h"], z >= p["zlb"], z[fin] <= p["zub"][fin]])
+                pr.solve(solver="CLARABEL", tol_gap_abs=1e-12, tol_gap_rel=1e-12, tol_feas=1e-12)
+                forced = pr.status in ("optimal", "optimal_inaccurate") and float(np.asarray(z.value)[N + k]) <= 1e-7
+            except Exception:  # noqa
+                pass
+            return {"what": "scale %d is %r, not positive (scales %s, objective %r)%s" % (
+                k, float(s[k]), s.tolist(), case["objective"], ": the optimal pair itself has this scale at zero (targets so far outside that all %s is removed)" % ("chroma" if k else "intensity") if forced else ""),
+                    "class": "zero-scale:%s%s" % (case["objective"], ":forced" if forced else "")}
         Bp = X @ p["Ap"].T + p["bp"]
         if np.max(np.abs(Bp - np.array(out["Bpred"]))) > 1e-8:
             return {"what": "B_pred is not the model capture of the returned intensities", "class": "prediction"}
